@@ -16,9 +16,9 @@ import (
 
 type c06Cell struct {
 	Front  int    `json:"front"`
-	Path   string `json:"path"`   // cold | syncS | bgS | waiter | skipF
-	Caller string `json:"caller"` // none | 0 | 10s | 1h | -1s
-	Cancel string `json:"cancel"` // never | before | after | deadline
+	Path   string `json:"path"`           // cold | syncS | bgS | waiter | skipF
+	Caller string `json:"caller"`         // none | 0 | 10s | 1h | -1s
+	Cancel string `json:"cancel"`         // never | before | after | deadline
 	Same   bool   `json:"same,omitempty"` // ObserveMutability on and the builder returns a value equal to the stale one
 }
 
@@ -37,6 +37,14 @@ func c06Cells(tier string) []Cell {
 						cells = append(cells, Cell{ID: c06Cell{Front: front, Path: path, Caller: caller, Cancel: cancel, Same: true}.id()})
 					}
 				}
+			}
+		}
+
+		// SkipRead on every other entry state, with and without a cached failure for the key (appended after the
+		// grid so that the indices of the older cells stay what they were)
+		for _, path := range []string{"skipA", "skipS", "skipT", "skipAE", "skipSE", "skipFE"} {
+			for _, caller := range []string{"none", "0", "10s", "1h", "-1s"} {
+				cells = append(cells, Cell{ID: c06Cell{Front: front, Path: path, Caller: caller, Cancel: "never"}.id()})
 			}
 		}
 	}
@@ -155,8 +163,12 @@ func c06Run(c Cell, env *Env) CellResult {
 		cfg.Init = "T"
 		w := GOp{Key: 0, TTL: 7}
 		cfg.Threads = [][]GOp{{op}, {w}}
-	case "skipF":
-		cfg.Init = "F"
+	case "skipF", "skipA", "skipS", "skipT", "skipAE", "skipSE", "skipFE":
+		cfg.Init = cc.Path[4:5]
+		if strings.HasSuffix(cc.Path[5:], "E") {
+			cfg.FailC = "1" // a build of the key failed a moment ago
+		}
+
 		op.Skip = true
 		cfg.Threads = [][]GOp{{op}}
 	}
@@ -318,9 +330,9 @@ func c06Run(c Cell, env *Env) CellResult {
 				}
 			}
 
-			if cc.Path == "skipF" {
+			if strings.HasPrefix(cc.Path, "skip") {
 				if h.nbuild[0] != 1 {
-					bad("skipread-build", fmt.Sprintf("SkipRead on a fresh entry invoked the builder %d times, want 1", h.nbuild[0]))
+					bad("skipread-build", fmt.Sprintf("SkipRead (entry state %s, failure cached: %v) invoked the builder %d times, want 1", cc.Path[4:5], cfg.FailC == "1", h.nbuild[0]))
 				}
 
 				t, isNil, _, found := h.front.Peek(h.keys[0])
@@ -382,7 +394,7 @@ func init() {
 	Register(&Prop{
 		ID: "C06", Title: "TTL and context travel through Failover as documented",
 		Cells: c06Cells, Run: c06Run,
-		Rule: "grid caller TTL {no cell, 0, 10s, 1h, -1s} x builder behaviour (every sequence of <=2 (quick: 73) / <=3 (thorough: 585) WithTTL(ctx,b,upd) calls, b in {0,5s,2h,-1s}, upd in {true,false}) x path {cold miss, sync update of a stale value, background update, waiter, SkipRead on a fresh entry} " +
+		Rule: "grid caller TTL {no cell, 0, 10s, 1h, -1s} x builder behaviour (every sequence of <=2 (quick: 73) / <=3 (thorough: 585) WithTTL(ctx,b,upd) calls, b in {0,5s,2h,-1s}, upd in {true,false}) x path {cold miss, sync update of a stale value, background update, waiter, SkipRead on a fresh entry; SkipRead on an absent / stale / too stale entry and with a failure cached for the key (uncancelled caller only)} " +
 			"x caller context {never cancelled, cancelled before, cancelled after, carrying a deadline} x 3 front-ends; each case under the scheduler with all schedules (unbounded, HB cached); a recording backend wrapper notes TTL(ctx) of every Write, the builder notes Err/Done/Deadline/Value of its context",
 		Assumptions: []string{
 			"'smallest non-zero' is taken over signed durations (a negative TTL is smaller than any positive one), as the implementation's comparison does",
